@@ -146,7 +146,7 @@ class C12(object):
         if big:
             ns, nf = rnd.randint(4, 32), rnd.randint(4, 32)
         cfg = enginea.draw_cfg(rnd, max_team=16)
-        wide = (not big) and rnd.random() < 0.012
+        wide = (not big) and rnd.random() < 0.008
         if wide:
             # a detector-sized frame (the kernels treat frames of 65536 pixels and more as worth a team of their own)
             ns, nf = rnd.choice([(256, 256), (128, 512), (300, 220), (257, 256)])
@@ -158,6 +158,8 @@ class C12(object):
                     "wseed": rnd.getrandbits(48), "threshold": rnd.choice([0.0, 5.0]), "omega0": 0.0, "ostep": rnd.choice([1.0, 0.25, -0.5]),
                     "nthresh": rnd.choice([1, 2, 3]), "dark": rnd.random() < 0.4, "omega_in_header": rnd.random() < 0.6,
                     "irregular_omega": rnd.random() < 0.5, "dup_threshold": rnd.random() < 0.25,
+                    # the driver is called a second time in the same process (a script treating several scans)
+                    "second_series": rnd.random() < 0.2,
                     "write2d": True, "cfg": dict(cfg, team=1),
                     "strategy": rnd.choice(["random", "random", "pct", "rr", "rtc"]), "p_inv": rnd.choice([1, 2, 4, 16, 64]),
                     "quantum": rnd.choice([1, 3, 10]), "pct_d": rnd.choice([1, 2, 3]), "sseed": rnd.getrandbits(48),
@@ -402,7 +404,15 @@ class C12(object):
                 it.ImageD11_thread.start, it.ImageD11_thread.join, it.ImageD11_thread.is_alive = t_start, t_join, t_alive
                 with contextlib.redirect_stdout(io.StringIO()):
                     try:
-                        sched.run(lambda: ps.peaksearch_driver(o2, []))
+                        def both_():
+                            ps.peaksearch_driver(o2, [])
+                            if desc.get("second_series"):
+                                install_series()
+                                o3 = options("threadedb", False)
+                                if dark is not None:
+                                    o3.dark = "dark.edf"
+                                ps.peaksearch_driver(o3, [])
+                        sched.run(both_)
                     except pysched.Deadlock as e:
                         viol = V("deadlock", str(e)[:300])
                     except pysched.StepCap as e:
@@ -445,20 +455,28 @@ class C12(object):
                                                  "single-thread run of the same frames (%d vs %d lines; strategy %s)" %
                              (t, len(b.splitlines()), len(a.splitlines()), desc["strategy"]))
                     break
+                if desc.get("second_series"):
+                    c = open(os.path.join(d, "threadedb_t%d.flt" % t)).read()
+                    texts.append(c)
+                    if a != c:
+                        viol = V("threaded-differs", "threshold %g: the SECOND threaded run of the driver in one process writes other merged "
+                                                     "peaks than the single-thread run of the same frames (%d vs %d lines; strategy %s)" %
+                                 (t, len(c.splitlines()), len(a.splitlines()), desc["strategy"]))
+                        break
         if viol is None:
             # every frame reaches every searcher exactly once and in order (recorded history of queue events)
             gets = collections.defaultdict(list)
             for e in sched.events:
                 if e[0] == "get" and e[2].startswith("peaksearch_one"):
                     gets[e[2]].append(e[3])
-            want = ["frame[%d]" % k for k in range(nfr)] + ["None"]
+            want = (["frame[%d]" % k for k in range(nfr)] + ["None"]) * (2 if desc.get("second_series") else 1)
             if len(gets) != len(thresholds):
                 viol = V("delivery", "%d searcher threads received frames, %d thresholds" % (len(gets), len(thresholds)))
             for name, seq in gets.items():
                 if seq != want:
                     viol = V("delivery", "searcher %s received %s, the series is %s" % (name, seq[:12], want[:12]))
                     break
-        if viol is None and sched.clock > 10.0 and not desc.get("eager_sleep"):
+        if viol is None and sched.clock > (20.0 if desc.get("second_series") else 10.0) and not desc.get("eager_sleep"):
             viol = V("liveness", "the driver returned only after %.1f virtual seconds" % sched.clock)
         if viol is None:
             # and the output itself is right (tier 1 oracle on the lowest threshold)
@@ -471,6 +489,7 @@ class C12(object):
         meas = enginea.run_measures(st, desc["cfg"])
         meas["scene_kind"] = {kind: 1}
         meas["pipeline_runs"] = 1
+        meas["second_driver_call_in_one_process"] = 1 if desc.get("second_series") else 0
         if sched is not None:
             meas["py_steps"], meas["py_switches"], meas["virtual_seconds"] = sched.steps, sched.switches, sched.clock
             meas["py_threads"] = len(sched.threads)
